@@ -883,22 +883,22 @@ theorem masks_literal :
     GenChecks.lookupNat Generated.masks "packet.errorInPayload" = some 0x40 ∧
     GenChecks.lookupNat Generated.masks "msghdr.seg" = some 0x0C := by decide
 
-/-! ## 11. end to end: the TRANSLATED C++ `Decoder::decode` against the create-free specification, size bound explicit -/
+/-! ## 11. end to end: the TRANSLATED C++ `Decoder::decode` against the create-free specification, buffers of any length -/
 
 section src
 open AsamCmp.Src AsamCmp.SrcGen AsamCmp.SrcDec
 
-/-- every buffer shorter than 2 GiB (`int curSize = static_cast<int>(size - 8)`, decoder.cpp) at a non-null address of a memory
+/-- every buffer, of any length (`std::size_t curSize = size - 8`, decoder.cpp), at a non-null address of a memory
     smaller than 2^63 bytes, any pending table satisfying the decoder's invariant: the translated source is defined and returns
     the model's packets -/
 theorem src_of_model (t : Table) (pre b post : Bytes) (fuel : Nat)
     (hT : C17b.TableOk t) (hR : TableReg t) (hpre : 0 < pre.length)
-    (hlen : b.length < 2 ^ 31) (hmem : (pre ++ b ++ post).length < 2 ^ 63) (hf : b.length ≤ fuel) :
+    (hmem : (pre ++ b ++ post).length < 2 ^ 63) (hf : b.length ≤ fuel) :
     ∃ t' outs, Decoder_decode_obj fuel (tblSt t) (pre ++ b ++ post) pre.length b.length (SrcTec.tecmpExt fuel) =
         some (tblSt t', outs) ∧ C17b.TableOk t' ∧
       outs.map (Sum.elim toPacket SrcTec.tAbs) = (decode t.abs (some b)).2 := by
   by_cases h8 : 8 ≤ b.length
-  · obtain ⟨t', outs, h1, h2, _, h4⟩ := decode_total_src t pre b post fuel hT hR hpre h8 hlen hmem hf
+  · obtain ⟨t', outs, h1, h2, _, h4⟩ := decode_total_src t pre b post fuel hT hR hpre h8 hmem hf
     exact ⟨t', outs, h1, h2, h4⟩
   · obtain ⟨h1, h2⟩ := decode_total_short_src t (pre ++ b ++ post) b pre.length fuel hpre (by omega)
     exact ⟨t, [], h1, hT, by rw [h2]; rfl⟩
@@ -906,33 +906,33 @@ theorem src_of_model (t : Table) (pre b post : Bytes) (fuel : Nat)
 /-- C04 (A)–(D) for the translated source -/
 theorem C04S_src_wire (F : WFrame) (hF : F.WF) (t : Table) (pre post : Bytes) (fuel : Nat)
     (hT : C17b.TableOk t) (hR : TableReg t) (hpre : 0 < pre.length)
-    (hlen : F.bytes.length < 2 ^ 31) (hmem : (pre ++ F.bytes ++ post).length < 2 ^ 63) (hf : F.bytes.length ≤ fuel) :
+    (hmem : (pre ++ F.bytes ++ post).length < 2 ^ 63) (hf : F.bytes.length ≤ fuel) :
     ∃ t' outs, Decoder_decode_obj fuel (tblSt t) (pre ++ F.bytes ++ post) pre.length F.bytes.length (SrcTec.tecmpExt fuel) =
         some (tblSt t', outs) ∧ C17b.TableOk t' ∧
       outs.map (Sum.elim toPacket SrcTec.tAbs) = F.msgs.map (specPacket F) := by
-  obtain ⟨t', outs, h1, h2, h3⟩ := src_of_model t pre F.bytes post fuel hT hR hpre hlen hmem hf
+  obtain ⟨t', outs, h1, h2, h3⟩ := src_of_model t pre F.bytes post fuel hT hR hpre hmem hf
   exact ⟨t', outs, h1, h2, by rw [h3, C04S_wire F hF]⟩
 
 /-- (H) for the translated source -/
 theorem C04S_src_pad (F : WFrame) (hF : F.WF) (k : Nat) (t : Table) (pre post : Bytes) (fuel : Nat)
     (hT : C17b.TableOk t) (hR : TableReg t) (hpre : 0 < pre.length)
-    (hlen : (F.bytes ++ zeros k).length < 2 ^ 31) (hmem : (pre ++ (F.bytes ++ zeros k) ++ post).length < 2 ^ 63)
+    (hmem : (pre ++ (F.bytes ++ zeros k) ++ post).length < 2 ^ 63)
     (hf : (F.bytes ++ zeros k).length ≤ fuel) :
     ∃ t' outs, Decoder_decode_obj fuel (tblSt t) (pre ++ (F.bytes ++ zeros k) ++ post) pre.length (F.bytes ++ zeros k).length
         (SrcTec.tecmpExt fuel) = some (tblSt t', outs) ∧ C17b.TableOk t' ∧
       outs.map (Sum.elim toPacket SrcTec.tAbs) = F.msgs.map (specPacket F) := by
-  obtain ⟨t', outs, h1, h2, h3⟩ := src_of_model t pre (F.bytes ++ zeros k) post fuel hT hR hpre hlen hmem hf
+  obtain ⟨t', outs, h1, h2, h3⟩ := src_of_model t pre (F.bytes ++ zeros k) post fuel hT hR hpre hmem hf
   exact ⟨t', outs, h1, h2, by rw [h3, C04S_pad F hF]⟩
 
 /-- (G) for the translated source, every cut offset (inside the frame header included) -/
 theorem C04S_src_truncate (F : WFrame) (hF : F.WF) (n : Nat) (t : Table) (pre post : Bytes) (fuel : Nat)
     (hT : C17b.TableOk t) (hR : TableReg t) (hpre : 0 < pre.length)
-    (hlen : (F.bytes.take n).length < 2 ^ 31) (hmem : (pre ++ F.bytes.take n ++ post).length < 2 ^ 63)
+    (hmem : (pre ++ F.bytes.take n ++ post).length < 2 ^ 63)
     (hf : (F.bytes.take n).length ≤ fuel) :
     ∃ t' outs, Decoder_decode_obj fuel (tblSt t) (pre ++ F.bytes.take n ++ post) pre.length (F.bytes.take n).length
         (SrcTec.tecmpExt fuel) = some (tblSt t', outs) ∧ C17b.TableOk t' ∧
       outs.map (Sum.elim toPacket SrcTec.tAbs) = (F.msgs.take (fitCount (n - 8) F.msgs)).map (specPacket F) := by
-  obtain ⟨t', outs, h1, h2, h3⟩ := src_of_model t pre (F.bytes.take n) post fuel hT hR hpre hlen hmem hf
+  obtain ⟨t', outs, h1, h2, h3⟩ := src_of_model t pre (F.bytes.take n) post fuel hT hR hpre hmem hf
   exact ⟨t', outs, h1, h2, by rw [h3, C04S_truncate F hF]⟩
 
 set_option maxRecDepth 8000 in
@@ -940,7 +940,7 @@ set_option maxRecDepth 8000 in
     the translated source returns the four literal packets -/
 example : ∃ t' outs, Decoder_decode_obj 128 (tblSt []) ([9] ++ exF.bytes ++ [5, 5]) 1 exF.bytes.length (SrcTec.tecmpExt 128) =
       some (tblSt t', outs) ∧ C17b.TableOk t' ∧ outs.map (Sum.elim toPacket SrcTec.tAbs) = exFPackets := by
-  have := C04S_src_wire exF exF_wf [] [9] [5, 5] 128 tableOk_nil tableReg_nil (by decide) (by decide) (by decide) (by decide)
+  have := C04S_src_wire exF exF_wf [] [9] [5, 5] 128 tableOk_nil tableReg_nil (by decide) (by decide) (by decide)
   rw [exF_spec] at this
   exact this
 
